@@ -1,1 +1,2 @@
 import GqlProofs.Props.C03
+import GqlProofs.Props.C18
